@@ -205,14 +205,36 @@ class PreprocessorHexagon:
 
     @staticmethod
     def replace_do_while_0(code: str) -> str:
-        m = re.search(r"(.*)do\s*\{(.*)}\s*while\s*\(0\)(.*)", code)
-        if not m:
+        """Replaces every `do { X } while (0)` with X. The closing bracket is the one
+        which matches the opening bracket after `do`. Real loops are not touched."""
+        changed = False
+        pos = 0
+        while True:
+            m = re.compile(r"\bdo\s*\{").search(code, pos)
+            if not m:
+                break
+            depth = 0
+            close = -1
+            for k in range(m.end() - 1, len(code)):
+                if code[k] == "{":
+                    depth += 1
+                elif code[k] == "}":
+                    depth -= 1
+                    if depth == 0:
+                        close = k
+                        break
+            w = None
+            if close >= 0:
+                w = re.match(r"\s*while\s*\(\s*0\s*\)", code[close + 1 :])
+            if not w:
+                pos = m.end()
+                continue
+            code = code[: m.start()] + code[m.end() : close] + code[close + 1 + w.end() :]
+            pos = m.start()
+            changed = True
+        if not changed:
             return code
-        tmp = ""
-        while m:
-            tmp = m.group(1) + m.group(2) + m.group(3)
-            m = re.search(r"(.*)do\s*\{(.*)}\s*while\s*\(0\)(.*)", tmp)
-        return tmp + "\n"
+        return code.rstrip("\n") + "\n"
 
     def postprocess_shortcode(self):
         self.remove_onetime_do_whiles()
